@@ -84,6 +84,12 @@ def d_mathalg(pid, what):
                  "MC_MathAlg", "MC_MathAlg_%s.cfg" % pid, "big", workers=8)
 D_MATHALG_REFUTE = d_tlc("MC_MathAlg_refute: exp with the original frac_nbits() term count, I9F3", "MC_MathAlg", "MC_MathAlg_refute.cfg", "big",
                          expect="violated")
+ROUND_LAYS = ["I64F64", "I0F128", "I1F127", "U1F127", "I128F0", "I32F32",
+              "U64F64", "U0F128", "I127F1", "I2F126", "U32F32", "I0F64", "I1F63", "I16F16", "I1F31", "U0F32", "I8F8", "I0F16", "U1F15"]
+D_ROUNDINT = [d_apa("RoundInt (Apalache, EVERY value of %s): ceil / floor / round / round_ties_to_even as coded (masks, 0- and 1-integer-bit "
+                    "cases) = <<exact rounding mod 2^w, overflow flag>>, round_to_zero exact" % n, "AP_RoundInt.tla", "C_" + n, "AllOk",
+                    thorough_only=(i >= 6)) for i, n in enumerate(ROUND_LAYS)] + [
+              d_apa("RoundInt: non-vacuity, ceil overflows somewhere", "AP_RoundInt.tla", "C_I64F64", "NeverOverflows", expect="violated")]
 def _trig(inv, cinit, what, expect="ok", thorough_only=False):
     return d_apa("TrigReduce (Apalache, EVERY angle |x| <= 200, %s): %s" % ({"CInit23": "I9F23", "CInit32": "f = 32", "CInit64": "f = 64", "CInit88": "f = 88"}[cinit], what),
                  "AP_TrigReduce.tla", cinit, inv, expect=expect, thorough_only=thorough_only)
@@ -109,7 +115,7 @@ D_TRIG = [
 DESIGNS = {
     "C01": [D_SEM] + D_MUL + D_DIV, "C02": [D_SEM] + D_MUL[:2] + D_MUL[6:11], "C03": [D_SEM] + D_CMP + D_FLOAT[:1], "C04": [D_SEM] + D_CONV, "C05": D_FLOAT,
     "C06": [D_SEM, d_tlc("MC_Round: rounding methods as coded (masks, 0/1 integer-bit special cases) = exact roundings, every value, "
-                         "68 layouts of widths 2..6 and 8", "MC_Round", "MC_Round.cfg", "int")],
+                         "68 layouts of widths 2..6 and 8", "MC_Round", "MC_Round.cfg", "int")] + D_ROUNDINT,
     "C07": [D_SEM] + D_EUCLID, "C09": D_FMT,
     "C08": [d_tlc("MC_Parse: tokeniser as coded = grammar, every string up to length 5 over 10 symbols x 4 radices", "MC_Parse",
                   "MC_Parse_5.cfg", "int")], "C11": D_MUL[2:6], "C18": D_WRAPVM,
